@@ -194,7 +194,10 @@ class Check(object):
                 shape0 = self.signature(c, d).get('shape')
             except Exception:
                 shape0 = None
-            c2, d2 = shrink.shrink_case(c, lambda x: self.still_fails(model, x, shape0), budget=self.SHRINK_BUDGET) if (self.SHRINK and 'f' in c) else (c, d)
+            try:
+                c2, d2 = shrink.shrink_case(c, lambda x: self.still_fails(model, x, shape0), budget=self.SHRINK_BUDGET) if (self.SHRINK and 'f' in c) else (c, d)
+            except Exception:
+                c2, d2 = c, d          # a failing case is reported unshrunk rather than lost
             if d2 is None:
                 d2 = d
             c2 = self.normalize(c2)
